@@ -138,8 +138,10 @@ Fixpoint enc (t : ty) (p : fparams) (v : value) {struct t} : outcome (list Z) :=
     match v with VBool b => Ok (finish p 0 false 1 [if b then 255 else 0]) | _ => Panic end
   | TInt =>
     match v with VInt z => Ok (finish p 0 false 2 (int_bytes z)) | _ => Panic end
-  | TString _ =>
-    match v with VBytes bs => Ok (finish p 0 false (p_strtype p) bs) | _ => Panic end
+  | TString k =>
+    match v with
+    | VBytes bs => Ok (finish p 0 false (if p_strtype p =? 0 then k else p_strtype p) bs)
+    | _ => Panic end
   | TWrap t' =>
     match v with VStruct (v0 :: _) => enc t' p v0 | _ => Panic end
   | TChoice alts =>
@@ -303,6 +305,7 @@ Fixpoint dec (t : ty) (p : fparams) (bs : list Z) {struct t} : outcome value :=
   match t with
   | TPtr t' => do v <- dec t' p bs; Ok (VPtr v)
   | _ =>
+   let body := fun (p : fparams) (bs : list Z) =>
     do (tl0, toff) <- parse_tl bs;
     if toff + t_len tl0 >? zlen bs then Err else
     match t with
@@ -374,5 +377,213 @@ Fixpoint dec (t : ty) (p : fparams) (bs : list Z) {struct t} : outcome value :=
            end) cs;
       Ok (VSlice vs)
     | TUnsupported => Err
-    end
+    end in
+   (* EXPLICIT tagging: unwrap once, then decode with the tag parameters
+      cleared (a tagged CHOICE is unwrapped by the CHOICE case itself) *)
+   do (tl0, toff) <- parse_tl bs;
+   if toff + t_len tl0 >? zlen bs then Err else
+   if (match p_tag p with Some _ => true | None => false end) && p_explicit p &&
+      negb (match t with TChoice _ => true | _ => false end)
+   then do rest <- slice_from bs toff; body (no_explicit (clear_tag p)) rest
+   else body p bs
   end.
+
+(* ---- the same decoder with the recursive calls abstracted ([rec]): used by
+   the proofs; [dec_eq] (Ber/DecEq.v) shows [dec t = dec_step dec t] by
+   computation, so this is the function above, not a second model. ---- *)
+Section DecBody.
+  Variable rec : ty -> fparams -> list Z -> outcome value.
+
+  Definition choice_pick (alts : list (fparams * ty)) (rest : list Z) (tn : Z) :=
+    fix pick (l : list (fparams * ty)) (k : nat) : outcome value :=
+      match l with
+      | [] => Err
+      | (ap, at') :: l' =>
+        if tag_matches ap tn then
+          do v <- rec at' ap rest;
+          Ok (VStruct (VInt (Z.of_nat (S k)) ::
+                       set_nth (map (fun a => zero (snd a)) alts) k v))
+        else pick l' (S k)
+      end.
+
+  Definition seq_find (p : fparams) (current : nat) (tn : Z) (chunk : list Z)
+             (k : nat -> value -> outcome value) :=
+    fix find (l : list (fparams * ty)) (j : nat) : outcome value :=
+      match l with
+      | [] => Err
+      | (fp, ft) :: l' =>
+        if Nat.ltb j (if p_set p then O else current) then find l' (S j)
+        else if p_open p then Err
+        else if tag_matches fp tn then
+          do v <- rec ft fp chunk; k j v
+        else find l' (S j)
+      end.
+
+  Definition seq_loop (fields : list (fparams * ty)) (p : fparams) (bs : list Z) (total : Z) :=
+    fix loop (fuel : nat) (offset : Z) (current : nat) (acc : list value)
+      : outcome value :=
+      if offset >=? total then Ok (VStruct acc) else
+      match fuel with
+      | O => OutOfFuel
+      | S fk =>
+        do rest <- slice_from bs offset;
+        do (tn, tno) <- parse_tl rest;
+        let next := offset + tno + t_len tn in
+        if next >? total then Err else
+        do chunk <- slice bs offset next;
+        seq_find p current (t_num tn) chunk
+                 (fun j v => loop fk next (S j) (set_nth acc j v)) fields O
+      end.
+
+  Definition slice_go (t' : ty) (p : fparams) :=
+    fix go (l : list (list Z)) : outcome (list value) :=
+      match l with
+      | [] => Ok []
+      | c :: l' => do v <- rec t' (clear_tag p) c; do r <- go l'; Ok (v :: r)
+      end.
+
+  Definition dec_body (t : ty) (p : fparams) (bs : list Z) : outcome value :=
+    do (tl0, toff) <- parse_tl bs;
+    if toff + t_len tl0 >? zlen bs then Err else
+    match t with
+    | TPtr _ => Panic
+    | TBits => do c <- slice_from bs toff; parse_bits c
+    | TOid => Err
+    | TOctets => do c <- slice_from bs toff; Ok (VBytes c)
+    | TEnum | TInt => do c <- slice_from bs toff; do z <- parse_signed c; Ok (VInt z)
+    | TNull => Ok (VBool true)
+    | TBool =>
+      if toff >=? zlen bs then Err
+      else do b <- idx bs toff; Ok (VBool (negb (b =? 0)))
+    | TString _ => do c <- slice_from bs toff; Ok (VBytes c)
+    | TWrap t' => do v <- rec t' p bs; Ok (VStruct [v])
+    | TChoice alts =>
+      if p_open p then Err else
+      do (tl1, offset) <-
+        match p_tag p with
+        | None => Ok (tl0, 0)
+        | Some _ =>
+          do rest <- slice_from bs toff;
+          do (tl2, toff2) <- parse_tl rest;
+          if toff + toff2 + t_len tl2 >? zlen bs then Err else Ok (tl2, toff)
+        end;
+      do rest <- slice_from bs offset;
+      choice_pick alts rest (t_num tl1) alts O
+    | TSeq fields =>
+      seq_loop fields p bs (zlen bs) (length bs) toff O (map (fun a => zero (snd a)) fields)
+    | TSlice t' =>
+      do cs <- chunks (length bs) bs toff;
+      do vs <- slice_go t' p cs;
+      Ok (VSlice vs)
+    | TUnsupported => Err
+    end.
+
+  Definition dec_step (t : ty) (p : fparams) (bs : list Z) : outcome value :=
+    match t with
+    | TPtr t' => do v <- rec t' p bs; Ok (VPtr v)
+    | _ =>
+      do (tl0, toff) <- parse_tl bs;
+      if toff + t_len tl0 >? zlen bs then Err else
+      if (match p_tag p with Some _ => true | None => false end) && p_explicit p &&
+         negb (match t with TChoice _ => true | _ => false end)
+      then do rest <- slice_from bs toff; dec_body t (no_explicit (clear_tag p)) rest
+      else dec_body t p bs
+    end.
+End DecBody.
+
+(* ---- the encoder with its recursive calls abstracted (see [enc_unfold]) ---- *)
+Section EncBody.
+  Variable rec : ty -> fparams -> value -> outcome (list Z).
+
+  Definition enc_pick (p : fparams) :=
+    fix pick (l : list (fparams * ty)) (ws : list value) (k : nat) : outcome (list Z) :=
+      match l, ws with
+      | (ap, at') :: l', w :: ws' =>
+        match k with
+        | O =>
+          if p_open p then Err
+          else match p_tag p with
+               | None => rec at' ap w
+               | Some _ => do inner <- rec at' ap w;
+                           Ok (finish (no_explicit p) 0 true 0 inner)
+               end
+        | S k' => pick l' ws' k'
+        end
+      | _, _ => Panic
+      end.
+
+  Definition enc_seq_go :=
+    fix go (l : list (fparams * ty)) (ws : list value) : outcome (list Z) :=
+      match l, ws with
+      | [], [] => Ok []
+      | (fp, ft) :: l', w :: ws' =>
+        if p_optional fp && (if nillable ft then false else true) then Panic
+        else if p_optional fp && is_nil w then go l' ws'
+        else if p_open fp then Err
+        else match rec ft fp w with
+             | Ok b => do r <- go l' ws'; Ok (b ++ r)
+             | Panic => Panic
+             | OutOfFuel => OutOfFuel
+             | Err => Err
+             end
+      | _, _ => Panic
+      end.
+
+  Definition enc_slice_go (t' : ty) (p : fparams) :=
+    fix go (ws : list value) : outcome (list Z) :=
+      match ws with
+      | [] => Ok []
+      | w :: ws' => do b <- rec t' (clear_tag p) w; do r <- go ws'; Ok (b ++ r)
+      end.
+
+  Definition enc_step (t : ty) (p : fparams) (v : value) : outcome (list Z) :=
+    match t with
+    | TPtr t' =>
+      match v with VPtr v' => rec t' p v' | VNil => Err | _ => Panic end
+    | TBits =>
+      match v with
+      | VBits bs n => Ok (finish p 0 false 3 (((8 - n mod 8) mod 8) :: bs))
+      | _ => Panic end
+    | TOid => Err
+    | TOctets =>
+      match bytes_of v with Some bs => Ok (finish p 0 false 4 bs) | None => Panic end
+    | TEnum =>
+      match v with VInt z => Ok (finish p 0 false 10 (int_bytes z)) | _ => Panic end
+    | TNull =>
+      match v with VBool _ => Ok (finish p 0 false 5 []) | _ => Panic end
+    | TBool =>
+      match v with VBool b => Ok (finish p 0 false 1 [if b then 255 else 0]) | _ => Panic end
+    | TInt =>
+      match v with VInt z => Ok (finish p 0 false 2 (int_bytes z)) | _ => Panic end
+    | TString k =>
+      match v with
+      | VBytes bs => Ok (finish p 0 false (if p_strtype p =? 0 then k else p_strtype p) bs)
+      | _ => Panic end
+    | TWrap t' =>
+      match v with VStruct (v0 :: _) => rec t' p v0 | _ => Panic end
+    | TChoice alts =>
+      match v with
+      | VStruct (VInt pr :: vs) =>
+        if pr <=? 0 then Err
+        else if pr >=? 1 + zlen alts then Err
+        else enc_pick p alts vs (Z.to_nat (pr - 1))
+      | _ => Panic
+      end
+    | TSeq fields =>
+      match v with
+      | VStruct vs =>
+        do content <- enc_seq_go fields vs;
+        Ok (finish p 0 true (seq_tag p) content)
+      | _ => Panic
+      end
+    | TSlice t' =>
+      let elems := match v with VSlice vs => Some vs | VNil => Some [] | _ => None end in
+      match elems with
+      | Some vs =>
+        do content <- enc_slice_go t' p vs;
+        Ok (finish p 0 true (seq_tag p) content)
+      | None => Panic
+      end
+    | TUnsupported => Panic
+    end.
+End EncBody.
